@@ -477,6 +477,27 @@ def run_ctx(cid: str, evs: List[str]) -> List[str]:
     V._VALIDATION_ENABLED.set(True)
     flags: List[str] = []
 
+    keeper = W.N()                 # one message that lives through the whole history
+    views: List[Tuple[str, Any]] = []   # array views bound at earlier points of the history (possibly inside a block)
+
+    def bad_assignments(name: str, view) -> List[bool]:
+        """out-of-domain stores through `view`; True = refused with nothing changed"""
+        out = []
+        tries = {"a_i8": [(0, 300), (slice(0, 2), [1, 300])], "ai4": [(1, 70000)], "af4": [(2, 1e39)],
+                 "ab6": [(0, 300)], "sa": [(1, ())]}[name]
+        for key, val in tries:
+            before = bytes(keeper)
+            try:
+                view[key] = val
+                ok = False
+            except (ValueError, TypeError, OverflowError):
+                ok = bytes(keeper) == before
+            if not ok:      # undo whatever was stored so that later probes start clean
+                import ctypes as _ct
+                _ct.memmove(_ct.addressof(keeper), before, len(before))
+            out.append(ok)
+        return out
+
     def probe():
         m = W.M()
         try:
@@ -485,6 +506,14 @@ def run_ctx(cid: str, evs: List[str]) -> List[str]:
         except ValueError:
             refused = True
         var = bool(V._VALIDATION_ENABLED.get())
+        # "validation is in force whenever execution is not inside a disable block": also for array views that were
+        # bound earlier, wherever they were bound
+        for nm in ("a_i8", "ai4", "af4", "ab6", "sa"):
+            views.append((nm, getattr(keeper, nm)))
+        if var:
+            for nm, vw in views:
+                if not all(bad_assignments(nm, vw)):
+                    refused = False
         flags.append(("1" if refused else "0") if refused == var else "?")
 
     def body(i: int):
